@@ -37,6 +37,34 @@ def stream_groups(pcfg, drop_markov):
     return [(p, sorted(k)) for p, k in out]
 
 
+def high_level_case():
+    """the program itself on a ruleset whose Markov levels include levels above 10 (a level is a sum of costs; the trainer lists 1..18):
+    the default run goes through all of them and emits, beside the Markov strings, exactly what `--skip_brute` emits"""
+    from collections import Counter
+    om = {'ngram': 2, 'alphabet': ['a', 'b'], 'ip': [[0, 'a'], [1, 'b']], 'ep': [[0, 'a'], [0, 'b']],
+          'cp': [[0, 'aa'], [1, 'ab'], [10, 'ba'], [0, 'bb']], 'ln': [10, 0, 1, 1], 'keyspace': []}
+    spec = {'terminals': {'D1': [['1', '0.5'], ['2', '0.25'], ['3', '0.125']], 'A2': [['ab', '0.5'], ['cd', '0.25']], 'C2': [['LL', '0.75'], ['UL', '0.25']]},
+            'grammar': [['D1', '0.25'], ['M', '0.5'], ['A2D1', '0.25']],
+            'omen_prob': [['1', '0.5'], ['11', '0.25'], ['2', '0.125'], ['12', '0.0625'], ['3', '0.03125'], ['18', '0.015625']],
+            'prince': [], 'mode': 'dyadic', 'encoding': 'utf-8', 'omen': om}
+    name = 'c14high'
+    common.install_ruleset(spec, name)
+    o0, e0, rc0 = common.run_cli('pcfg_guesser.py', ['-r', name, '-s', 'c14high0'], stdin='pipe-open')
+    o1, e1, rc1 = common.run_cli('pcfg_guesser.py', ['-r', name, '-s', 'c14high1', '--skip_brute'], stdin='pipe-open')
+    d0, d1 = Counter(o0.decode().split('\n')[:-1]), Counter(o1.decode().split('\n')[:-1])
+    markov = Counter()
+    for lv, _ in spec['omen_prob']:
+        markov.update(gen_omen.brute_level(om, int(lv)) or [])
+    wit = {'high_level_case': True}
+    # (exit codes and stderr say nothing here: the keyboard thread of a run without a terminal ends in its own way)
+    if d0 - markov != d1 or not d1 or (d0 & markov) != markov:
+        return [{'property': 'C14', 'kind': 'skip-brute-not-default-minus-markov', 'default_lines': sum(d0.values()), 'skip_brute_lines': sum(d1.values()),
+                 'markov_strings': sum(markov.values()), 'only_in_default': list((d0 - markov - d1).items())[:4], 'only_in_skip_brute': list((d1 - d0).items())[:4],
+                 'markov_missing': list((markov - d0).items())[:4],
+                 'stderr_tail': e0.decode(errors='replace')[-200:], 'witness': wit}]
+    return []
+
+
 def run(ctx):
     rng = ctx.rng
     ops, exp, viol, samples, disagreements = ['ld.new'], ['ok'], [], [], []
@@ -241,6 +269,8 @@ def run(ctx):
                 viol.append({'property': 'C14', 'kind': 'load-ignores-saved-flags', 'flags': ['--skip_brute', '--all_lower'],
                              'history': 'another session (name differing after the last dot) was started in between',
                              'first_run_lines': oa.count(b'\n'), 'resumed_lines': oc.count(b'\n'), 'witness': {'spec': spec, 'cli': ['--skip_brute', '--all_lower'], 'dotted_names': True}})
+    viol += high_level_case()
+    cli_runs += 2
     cases += cli_runs
     if ctx.driver_ok:
         out = common.run_driver(ops)
@@ -262,6 +292,8 @@ def run(ctx):
 
 
 def replay(ctx, payload):
+    if (payload.get('violation', {}).get('witness') or {}).get('high_level_case'):
+        return high_level_case()
     w = payload.get('violation', {}).get('witness') or {}
     out = []
     if 'grammar_text' in w:
